@@ -1,6 +1,8 @@
 (* Property C06 - proof of stake: weighted lottery, owner-only signing, locked funds, exact payout.
    Statements only; proofs in Proofs/Staking.v and Proofs/Lottery.v (the counting statements). *)
-From Virel Require Import Lib.Config Lib.U64 Lib.AMap Model.Ledger Model.Node Proofs.Staking Proofs.NodeBasics Proofs.StakedSum Proofs.Lottery.
+From Virel Require Import Lib.Config Lib.U64 Lib.AMap Model.Emission Model.Ledger Model.Node Spec.Chain
+  Proofs.Emission Proofs.Conservation Proofs.Staking Proofs.NodeBasics Proofs.ForkChoice Proofs.ChainInv Proofs.StakedSum
+  Proofs.Lottery Proofs.Refine2 Proofs.Replay2 Proofs.Replay4 Proofs.Replay5 Proofs.KeyInv Proofs.NodeConservation.
 Open Scope N_scope.
 
 (* THE LOTTERY.  When the staked total S is the sum over all pools (invariant of C01) and positive, then for EVERY
@@ -63,7 +65,8 @@ Theorem C06_lottery_counts_within_one : forall l pre post k d,
 Proof. exact lottery_counts_within_one. Qed.
 Print Assumptions C06_lottery_counts_within_one.
 
-(* the same count by identifier (what GetStaker returns), the identifiers of the table being distinct *)
+(* the same count by identifier (what GetStaker returns), the identifiers of the table being distinct (for the ledgers of
+   reachable nodes and of chains from the empty ledger that is proved: C06_pool_ids_distinct_reachable / _chain below) *)
 Theorem C06_lottery_counts_indices_by_id : forall l pre k d post,
   SInv l -> 0 < staked l -> NoDup (map fst (dlgs l)) -> dlgs l = pre ++ (k, d) :: post ->
   count_below (elects l (d_id d)) (staked l) + ind (is_last_funded d post) = tot d + ind (is_first pre).
@@ -104,6 +107,124 @@ Theorem C06_lottery_share_of_hash_values_by_id : forall l pre k d post,
   tot d * two128 <= (n + tot d) * staked l + two128.
 Proof. exact (fun l pre k d post => lottery_share_of_values_by_id l pre k d post two128). Qed.
 Print Assumptions C06_lottery_share_of_hash_values_by_id.
+
+(* THE IDENTIFIERS OF THE TABLE ARE DISTINCT - no longer a hypothesis for the ledgers that occur (Proofs/KeyInv.v).
+   "No two records under one id" is an invariant of the delegate table together with its database-key order: the empty
+   table has it; put_dlg (replace the record of the same id, else insert in key order: because the table is ordered, an
+   id inserted before a record with a larger key cannot occur again behind it) and del_dlg keep it; nothing else writes
+   the table.  Hence every ledger operation keeps it - ApplyTxToState, ApplyBlockToState, RemoveTxFromState,
+   RemoveBlockFromState, with no condition on the transactions - and so does every delivery. *)
+Theorem C06_pool_ids_distinct_kept :
+  (dsorted (dlgs ledger0) /\ NoDup (map fst (dlgs ledger0))) /\
+  (forall l d, dsorted (dlgs l) -> NoDup (map fst (dlgs l)) ->
+     dsorted (dlgs (put_dlg l d)) /\ NoDup (map fst (dlgs (put_dlg l d)))) /\
+  (forall l id, dsorted (dlgs l) -> NoDup (map fst (dlgs l)) ->
+     dsorted (dlgs (del_dlg l id)) /\ NoDup (map fst (dlgs (del_dlg l id)))).
+Proof. exact (conj (proj2 KInv0) (conj put_dlg_ids_distinct del_dlg_ids_distinct)). Qed.
+Print Assumptions C06_pool_ids_distinct_kept.
+
+(* KInv l = at most one account record per address, delegate table in key order, at most one pool record per id *)
+Theorem C06_pool_ids_distinct_ledger_ops : forall cfg genesis_addr,
+  (forall l t h bh top_h l', KInv l -> apply_tx cfg l t h bh top_h = Ok l' -> KInv l') /\
+  (forall l b top_h l', KInv l -> apply_block cfg genesis_addr l b top_h = Ok l' -> KInv l') /\
+  (forall bs l l', KInv l -> apply_chain cfg genesis_addr l bs = Ok l' -> KInv l') /\
+  (forall l t bh top_h l', KInv l -> remove_tx cfg l t bh top_h = Ok l' -> KInv l') /\
+  (forall l b top_h l', KInv l -> remove_block cfg genesis_addr l b top_h = Ok l' -> KInv l').
+Proof.
+  exact (fun cfg ga => conj (KInv_apply_tx cfg) (conj (KInv_apply_block cfg ga) (conj (KInv_apply_chain cfg ga)
+           (conj (KInv_remove_tx cfg) (KInv_remove_block cfg ga))))).
+Qed.
+Print Assumptions C06_pool_ids_distinct_ledger_ops.
+
+(* every node state reachable from genesis by any deliveries (extensions, reorganisations, refusals): NO premise on
+   the blocks *)
+Theorem C06_pool_ids_distinct_reachable : forall cfg genesis_addr team_key g n0 ops,
+  node0 cfg genesis_addr g = Ok n0 ->
+  NoDup (map fst (dlgs (ldg (run cfg genesis_addr team_key n0 ops)))).
+Proof. exact (fun cfg ga tk g n0 ops H => proj2 (proj2 (reachable_KInv cfg ga tk g n0 ops H))). Qed.
+Print Assumptions C06_pool_ids_distinct_reachable.
+
+(* every chain of blocks applied to the empty ledger *)
+Theorem C06_pool_ids_distinct_chain : forall cfg genesis_addr bs l,
+  apply_chain cfg genesis_addr ledger0 bs = Ok l -> NoDup (map fst (dlgs l)).
+Proof. exact chain_ids_distinct. Qed.
+Print Assumptions C06_pool_ids_distinct_chain.
+
+(* THE LOTTERY BY IDENTIFIER WITHOUT THE HYPOTHESIS, on the ledger of a reachable node ... *)
+Theorem C06_lottery_counts_indices_by_id_reachable : forall cfg genesis_addr team_key g n0 ops pre k d post,
+  node0 cfg genesis_addr g = Ok n0 ->
+  let l := ldg (run cfg genesis_addr team_key n0 ops) in
+  SInv l -> 0 < staked l -> dlgs l = pre ++ (k, d) :: post ->
+  count_below (elects l (d_id d)) (staked l) + ind (is_last_funded d post) = tot d + ind (is_first pre).
+Proof. exact reachable_lottery_counts_indices_by_id. Qed.
+Print Assumptions C06_lottery_counts_indices_by_id_reachable.
+
+Theorem C06_lottery_share_of_hash_values_by_id_reachable : forall cfg genesis_addr team_key g n0 ops pre k d post,
+  node0 cfg genesis_addr g = Ok n0 ->
+  let l := ldg (run cfg genesis_addr team_key n0 ops) in
+  SInv l -> 0 < staked l -> dlgs l = pre ++ (k, d) :: post ->
+  let n := count_below (elects l (d_id d)) two128 in
+  n * staked l <= (tot d + 1) * two128 + (tot d + 1) * staked l /\
+  tot d * two128 <= (n + tot d) * staked l + two128.
+Proof. exact (fun cfg ga tk g n0 ops pre k d post => reachable_lottery_share_by_id cfg ga tk g n0 ops pre k d post two128). Qed.
+Print Assumptions C06_lottery_share_of_hash_values_by_id_reachable.
+
+(* ... on the ledger after any chain of blocks from the empty ledger ... *)
+Theorem C06_lottery_counts_indices_by_id_chain : forall cfg genesis_addr bs l pre k d post,
+  apply_chain cfg genesis_addr ledger0 bs = Ok l ->
+  SInv l -> 0 < staked l -> dlgs l = pre ++ (k, d) :: post ->
+  count_below (elects l (d_id d)) (staked l) + ind (is_last_funded d post) = tot d + ind (is_first pre).
+Proof. exact chain_lottery_counts_indices_by_id. Qed.
+Print Assumptions C06_lottery_counts_indices_by_id_chain.
+
+Theorem C06_lottery_share_of_hash_values_by_id_chain : forall cfg genesis_addr bs l pre k d post,
+  apply_chain cfg genesis_addr ledger0 bs = Ok l ->
+  SInv l -> 0 < staked l -> dlgs l = pre ++ (k, d) :: post ->
+  let n := count_below (elects l (d_id d)) two128 in
+  n * staked l <= (tot d + 1) * two128 + (tot d + 1) * staked l /\
+  tot d * two128 <= (n + tot d) * staked l + two128.
+Proof. exact (fun cfg ga bs l pre k d post => chain_lottery_share_by_id cfg ga bs l pre k d post two128). Qed.
+Print Assumptions C06_lottery_share_of_hash_values_by_id_chain.
+
+(* ... and with the staked-sum invariant discharged as well (premises of C03_ledger_is_replay, Props/C03.v; SInv of the
+   node's ledger is C01_reachable_staked_sum): for every reachable node with something staked, every pool of its table
+   is elected by identifier for a share of the 2^128 lottery values proportional to its stake. *)
+Theorem C06_lottery_counts_indices_by_id_node : forall cfg genesis_addr team_key g n0 ops,
+  cfg_ok_emission cfg = true -> cfg_ok_feepos cfg = true ->
+  node0 cfg genesis_addr g = Ok n0 -> b_height g = 0 -> b_cd g = b_diff g ->
+  N.of_nat (length ops) < two64 - 1 ->
+  Forall (tx_c cfg) (b_txs g) ->
+  (forall h b, get_block (run cfg genesis_addr team_key n0 ops) h = Some b ->
+     Forall (fun t => wf_tx cfg t /\ ver_ok t = true) (b_txs b)) ->
+  (forall bs, up (b_hash g) (blocks (run cfg genesis_addr team_key n0 ops)) (b_hash g) bs ->
+     NoDup (bkeys g ++ flat_map bkeys bs) /\ c0 g + bnouts bs < two64 /\ c0 g + bntx bs < two64) ->
+  forall pre k d post,
+  let l := ldg (run cfg genesis_addr team_key n0 ops) in
+  0 < staked l -> dlgs l = pre ++ (k, d) :: post ->
+  count_below (elects l (d_id d)) (staked l) + ind (is_last_funded d post) = tot d + ind (is_first pre).
+Proof. exact reachable_lottery_counts_indices_by_id_full. Qed.
+Print Assumptions C06_lottery_counts_indices_by_id_node.
+
+Theorem C06_lottery_share_of_hash_values_by_id_node : forall cfg genesis_addr team_key g n0 ops,
+  cfg_ok_emission cfg = true -> cfg_ok_feepos cfg = true ->
+  node0 cfg genesis_addr g = Ok n0 -> b_height g = 0 -> b_cd g = b_diff g ->
+  N.of_nat (length ops) < two64 - 1 ->
+  Forall (tx_c cfg) (b_txs g) ->
+  (forall h b, get_block (run cfg genesis_addr team_key n0 ops) h = Some b ->
+     Forall (fun t => wf_tx cfg t /\ ver_ok t = true) (b_txs b)) ->
+  (forall bs, up (b_hash g) (blocks (run cfg genesis_addr team_key n0 ops)) (b_hash g) bs ->
+     NoDup (bkeys g ++ flat_map bkeys bs) /\ c0 g + bnouts bs < two64 /\ c0 g + bntx bs < two64) ->
+  forall pre k d post,
+  let l := ldg (run cfg genesis_addr team_key n0 ops) in
+  0 < staked l -> dlgs l = pre ++ (k, d) :: post ->
+  let n := count_below (elects l (d_id d)) two128 in
+  n * staked l <= (tot d + 1) * two128 + (tot d + 1) * staked l /\
+  tot d * two128 <= (n + tot d) * staked l + two128.
+Proof.
+  exact (fun cfg ga tk g n0 ops Hok Hfp H0 Hg0 Hcd Hlen Hgen Hty Hp pre k d post =>
+           reachable_lottery_share_by_id_full cfg ga tk g n0 ops Hok Hfp H0 Hg0 Hcd Hlen Hgen Hty Hp pre k d post two128).
+Qed.
+Print Assumptions C06_lottery_share_of_hash_values_by_id_node.
 
 (* a delegate with no stake never receives a staker reward *)
 Theorem C06_no_stake_no_reward : forall l bh o l',
